@@ -143,14 +143,14 @@ Fixpoint find_inst (id : N) (l : list (N * N * N * N * N)) : option (N * N) :=
   | (i, st, ib, _, _) :: r => if N.eqb i id then Some (st, ib) else find_inst id r
   end.
 
-(* instances the present pool has shut down: shown in state shutdown, or Destroy has been called on them.
-   StateShutdown is final for a worker; only a new pool (ORestart) sees the instance afresh. *)
-Definition shut_now (ob : obs) : list N :=
-  flat_map (fun x => match x with (i, st, _, _, des) => if N.eqb st 4 || negb (N.eqb des 0) then [i] else [] end) (ob_inst ob).
-Definition next_shut (shut : list N) (o : op) (ob : obs) : list N :=
-  match o with ORestart => [] | _ => shut_now ob ++ filter (fun i => memN i (map (fun x => match x with (i, _, _, _, _) => i end) (ob_inst ob))) shut end.
-
+(* instances the present pool has shut down: it has shown them in state shutdown.  StateShutdown is final for a
+   worker (proofs/C14_wp.v: shutdown_is_terminal); only a new pool (ORestart) sees the instance afresh. *)
 Definition inst_ids (ob : obs) : list N := map (fun x => match x with (i, _, _, _, _) => i end) (ob_inst ob).
+Definition shut_now (ob : obs) : list N :=
+  flat_map (fun x => match x with (i, st, _, _, _) => if N.eqb st 4 then [i] else [] end) (ob_inst ob).
+Definition next_shut (shut : list N) (o : op) (ob : obs) : list N :=
+  match o with ORestart => [] | _ => shut_now ob ++ filter (fun i => memN i (inst_ids ob)) shut end.
+
 (* instances whose processes the present pool has discovered: it has shown them booting (it created them: they
    run nothing else), idle or running (a crunch-run --list answer has been applied).  An instance that went
    from unknown straight to shutdown is NOT discovered (environment assumption A3 of C14). *)
@@ -206,3 +206,52 @@ Definition R (boot lok : bool) (uuids : list N) (broken stale : bool) : presp :=
 Definition Ob (ret : N) (run : list (N * bool)) (un : list (N * Z)) (cnt : list nat) (inst : list (N * N * N * N * N))
               (live : list (N * N)) : obs :=
   mkobs ret run un cnt inst live.
+
+(* ---------------- the same specification as propositions (statements of proofs/C14_wp.v) ---------------- *)
+(* one step, as a proposition *)
+Definition step_P (shut disc : list N) (prev : obs) (o : op) (ob : obs) : Prop :=
+  match o with
+  | OStart it u =>
+      ob_ret ob = 0%N \/
+      (find_inst (ob_ret ob - 1) (ob_inst prev) = Some (2%N, 0%N) /\      (* shown idle, IdleBehavior run *)
+       ~ In (ob_ret ob - 1)%N shut /\                                      (* never shown shut down by this pool *)
+       ~ In u (map snd (live_on disc prev)))                               (* no live process of u on a discovered instance *)
+  | OCreate _ _ oc => oc = 0%N \/ ob_unalloc ob = ob_unalloc prev
+  | _ => True
+  end /\ NoDup (map snd (live_on (next_disc disc o ob) ob)).
+
+Fixpoint spec_P (shut disc : list N) (prev : obs) (steps : list (op * obs)) : Prop :=
+  match steps with
+  | [] => True
+  | (o, ob) :: r => step_P shut disc prev o ob /\ spec_P (next_shut shut o ob) (next_disc disc o ob) ob r
+  end.
+
+
+(* the clauses of step_P that speak about the pool only (not about the environment's process list) *)
+Definition pool_clause (shut : list N) (prev : obs) (o : op) (ob : obs) : Prop :=
+  match o with
+  | OStart it u => ob_ret ob = 0%N \/ (find_inst (ob_ret ob - 1) (ob_inst prev) = Some (2%N, 0%N) /\ ~ In (ob_ret ob - 1)%N shut)
+  | OCreate _ _ oc => oc = 0%N \/ ob_unalloc ob = ob_unalloc prev
+  | _ => True
+  end.
+
+Fixpoint pool_clauses (shut : list N) (prev : obs) (steps : list (op * obs)) : Prop :=
+  match steps with
+  | [] => True
+  | (o, ob) :: r => pool_clause shut prev o ob /\ pool_clauses (next_shut shut o ob) ob r
+  end.
+Fixpoint fresh_ids (prev : obs) (steps : list (op * obs)) : Prop :=
+  match steps with [] => True | (o, ob) :: r => fresh_obs o prev /\ fresh_ids ob r end.
+
+
+(* instance ids of the model pool; the cloud hands out fresh instance ids *)
+Definition ids (p : wpool) : list N := map w_id (p_workers p).
+Definition fresh_create (o : op) (p : wpool) : Prop :=
+  match o with OCreate _ id _ => ~ In id (ids p) | _ => True end.
+
+Definition fresh_obs (o : op) (prev : obs) : Prop :=
+  match o with OCreate _ id _ => ~ In id (inst_ids prev) | _ => True end.
+
+Definition shut_id (i : N) (p : wpool) : Prop := exists w, In w (p_workers p) /\ w_id w = i /\ w_st w = WShutdown.
+Definition only_shut (i : N) (p : wpool) : Prop := forall w, In w (p_workers p) -> w_id w = i -> w_st w = WShutdown.
+
